@@ -110,6 +110,15 @@ def cells(tier):
             if lst:
                 ind["tasks"] = lst
             out.append((f"{kind}.{'all' if lst is None else 'list'}", fam.base(5, tasks, indicators=[ind]), 5))
+    # a due date of ZERO (total tardiness = total completion time) next to ordinary ones
+    for kind in ("Tardiness", "NbTardy", "MaxLateness", "Earliness"):
+        for lst in (None, ["t0", "t1"]):
+            tasks = [fam.fx("t0", 2, due_date=0, due_date_is_deadline=False), fam.zr("t1", due_date=0, due_date_is_deadline=False),
+                     fam.fx("t2", 1, due_date=2, due_date_is_deadline=False)]
+            ind = {"id": "i", "kind": kind}
+            if lst:
+                ind["tasks"] = lst
+            out.append((f"{kind}.due0.{'all' if lst is None else 'list'}", fam.base(4, tasks, indicators=[ind]), 4))
     # two whole-problem indicators whose reported names collide in the solution
     out.append(("Tardiness+NbTardy.names", fam.base(5, [fam.fx("t0", 2, due_date=1, due_date_is_deadline=False),
                                                        fam.fx("t1", 1, due_date=1, due_date_is_deadline=False)],
